@@ -83,6 +83,24 @@ def run(run, tier, seed):
                 sb.import_table("x", k, True, [names[p] for p in perm], prow)
                 sb.distance("x", n, freqs[-1], allow_ambig=False, threads=1)
                 run.evaluations += 1
+        # samples that lose every k-mer to the frequency filter: two samples with private k-mers only, next to two
+        # that share theirs; the pair of emptied samples has nothing to compare (0 SNPs, proportion 0)
+        for pi in range(2 if tier == "quick" else 12):
+            k = rng.choice(gen.ALLK)
+            n = rng.randint(4, 6)
+            rows = gen.random_table(rng, k, n, rng.randint(30, 80), alphabet="ACGT")
+            for ri_, r in enumerate(rows):
+                if ri_ % 3 == 0:
+                    r[1] = [r[1][0], r[1][1]] + [45] * (n - 2)                      # shared by the first two samples only
+                else:
+                    own = 2 + ri_ % (n - 2)
+                    r[1] = [45] * own + [r[1][own]] + [45] * (n - own - 1)          # private to one of the others
+            sb.reset()
+            sb.import_table("x", k, True, ["e%d_%d" % (pi, i) for i in range(n)], rows)
+            for minf in ([2000 // n, 1000], [500, 1000] if n == 4 else [400, 1000]):
+                sb.distance("x", n, minf, allow_ambig=bool(pi % 2), threads=1 + pi % 3)
+                run.evaluations += 1
+                run.nontriv([rows, minf])
         # a table with more than a thousand variable rows, run with several pool sizes (block-wise or chunked
         # accumulation must not depend on the thread count or lose a remainder)
         n, k = 3, 21
